@@ -203,7 +203,11 @@ def build(cls, rng, cplx):
             p_ = PR.L2Reg(shape, lam, y=arr())
         else:
             p_ = PR.LInfProj(shape, eps, bias=arr())
-        return PR.UnitaryTransform(PR.UnitaryTransform(p_, A1), A2), shape, {"k": "free"}
+        # independent reference, from the definition: the outer operator acts on the input first
+        #   prox_{g(A1 A2 .)}(y) = A2^H A1^H prox_g(A1 A2 y)
+        ref_ = lambda a_, y_: A2.H(A1.H(p_(a_, A1(A2(y_)))))          # noqa: E731
+        return PR.UnitaryTransform(PR.UnitaryTransform(p_, A1), A2), shape, \
+            {"k": "free", "ref": ref_}
     if cls.startswith("Unitary-"):
         if cls == "Unitary-FFT":
             A = sp.linop.FFT(shape, axes=None if rng.random() < 0.5 else [-1])
@@ -452,6 +456,14 @@ def run_case(case):
     if not np.array_equal(y, y0):
         return violated(sig, "input modified", wit, mech="mutated")
     x_kept = x.copy() if isinstance(x, np.ndarray) else None
+    if info.get("ref") is not None and isinstance(x, np.ndarray):
+        # nested transforms: compare with the composition written out from the definition
+        xr_ = np.asarray(info["ref"](alpha, y0))
+        sc_ = max(nrm(xr_), nrm(y0), 1e-300)
+        if xr_.shape != x.shape or nrm(x - xr_) > (1e-9 if x.dtype != np.complex64 else 1e-4) * sc_:
+            return violated(sig, "nested UnitaryTransform differs from A2^H A1^H prox(A1 A2 y) "
+                            "written out from the definition: rel %.3g" % (
+                                nrm(x - xr_) / sc_), wit, mech="nested-unitary")
     # idempotence of projections / feasible point is returned unchanged
     checks = 1
     if info["k"] in ("l2ball", "linf", "l1ball", "box", "psd") and isinstance(x, np.ndarray) \
